@@ -106,8 +106,16 @@ def run_property(pid, tier, seed, jobs=None):
         with ctx.Pool(nproc, maxtasksperchild=8) as pool:
             r1 = pool.map_async(_worker, work, chunksize=1)
             r2 = pool.map_async(_extra_worker, extras, chunksize=1)
-            results += r1.get()
-            results += r2.get()
+            # hard budget for the whole pool: a solver call that ignores its own timeout must not hang the check
+            budget = 2400 if tier == 'quick' else 14400
+            try:
+                results += r1.get(timeout=budget)
+                results += r2.get(timeout=max(60, budget - (time.time() - t0)))
+            except mp.TimeoutError:
+                pool.terminate()
+                print(f'CHECKER-FAULT property={pid} a worker exceeded the hard budget of {budget} s (solver ignoring its '
+                      f'timeout); nothing is concluded from this run')
+                return 3
     return finish(pid, pmod, tier, seed, results, time.time() - t0)
 
 
